@@ -1,5 +1,6 @@
 import GoflowModel.Contact.Model
 import GoflowModel.Driver.Util
+import GoflowModel.Contact.Channel
 /-
   cmod <contact> <modifier…>  →  <contact'> <events> <modified>
 contact : name(hex)|lang|status|tz|urns|groups|fields|ticket ; lists `,`-separated or `_`;
@@ -82,6 +83,28 @@ def handle : List String → Option String
       let o := reevaluate (fun g => q.contains g) (fun g => m.contains g) (← parseNats order) c
       some s!"{showContact o.contact} {showL (o.events.map showEv)} {o.modified}"
     | _ => none
+  | ["chanmod", ch, urns] => do
+    -- chanmod <- | id:send(0/1):scheme,scheme…|_> <_ | scheme:rest:channel(-|id);…>  →  mod=<0|1> ev=<none|error|changed> urns=<…>   (ChannelModifier.Apply)
+    let parseU := fun (t : String) => match t.splitOn ":" with
+      | [s, r, c] => do
+        let chn ← (if c == "-" then some none else c.toNat?.map some)
+        some (⟨← s.toNat?, ← r.toNat?, chn⟩ : Contact.Channel.CURN)
+      | _ => none
+    let us ← (if urns == "_" then some [] else (urns.splitOn ";").mapM parseU)
+    let chan ← (if ch == "-" then some none else
+      match ch.splitOn ":" with
+      | [i, snd, scs] => do
+        let ss ← (if scs == "_" then some [] else (scs.splitOn ",").mapM (·.toNat?))
+        some (some (⟨← i.toNat?, snd == "1", ss⟩ : Contact.Channel.Chan))
+      | _ => none)
+    let o := Contact.Channel.apply us chan
+    let showU := fun (u : Contact.Channel.CURN) => s!"{u.scheme}:{u.rest}:" ++ (match u.channel with | none => "-" | some c => toString c)
+    let ev := match o.events with
+      | [] => "none"
+      | [.error] => "error"
+      | [.urnsChanged l] => if l == o.urns then "changed" else "changed-with-another-list"
+      | _ => "several"
+    some s!"mod={if o.modified then 1 else 0} ev={ev} urns={if o.urns.isEmpty then "_" else ";".intercalate (o.urns.map showU)}"
   | _ => none
 
 end GoflowModel.Driver.Contact
